@@ -4,6 +4,7 @@ import json
 
 import k8s as K
 import project as P
+import worldenc
 import worldgen
 import wprop
 from fw import gB, gN, gC
@@ -31,6 +32,8 @@ CODES = {
     10: "Default / IsDefaulted / Validate crashed",
     11: "defaulting is not idempotent",
     12: "the defaulted object is not recognised as defaulted",
+    14: "Default left unset a field the reconcilers dereference (the model's list of them)",
+    17: "the implementation accepts (IsDefaulted and Validate) a spec in which a field the reconcilers dereference is unset",
     13: "validation crashed on a defaulted spec",
     15: "the replica-set sync crashed although the parent's spec is defaulted and valid",
     16: "the ExtendedDaemonSet reconcile crashed",
@@ -131,8 +134,16 @@ def g_strategy(s):
 
 def encode(c, r):
     if c["kind"] != "c16_default":
-        lits = wprop.encode(c, r)
-        return None if lits is None else ["(W %s)" % l for l in lits]
+        if r.get("panic"):
+            return None
+        lits = []
+        for st in (r["out"].get("steps") or []):
+            l = worldenc.encode_step(st, c["options"])
+            if l is not None:
+                # the implementation's own verdict on the ExtendedDaemonSet(s) of the step's pre-state
+                acc = all(o.get("_accepted") for o in (st.get("pre") or []) if o.get("kind") == "ExtendedDaemonSet")
+                lits.append("(W %s %s)" % (gB(acc), l))
+        return lits
     if r.get("panic"):
         mode = "VAuto" if c["mode"] == "auto" else "VManual"
         s = g_strategy(c["strategy"])
